@@ -20,8 +20,8 @@ CONSTANTS MaxN, LMax
 NoCap == 99
 
 VARIABLES N, g, cap, tolL, prec, luFault, bzero,   \* the call (fixed)
-          geff, m, lvl, hist, bd, pc, ret
-vars == <<N, g, cap, tolL, prec, luFault, bzero, geff, m, lvl, hist, bd, pc, ret>>
+          geff, m, j, kdim, lvl, hist, bd, pc, ret
+vars == <<N, g, cap, tolL, prec, luFault, bzero, geff, m, j, kdim, lvl, hist, bd, pc, ret>>
 params == <<N, g, cap, tolL, prec, luFault, bzero>>
 
 Init ==
@@ -30,7 +30,7 @@ Init ==
   /\ tolL \in 1..LMax
   /\ prec \in {"none", "left_lu"} /\ luFault \in BOOLEAN /\ bzero \in BOOLEAN
   /\ (luFault => prec = "left_lu")
-  /\ geff = g /\ m = 0 /\ lvl = LMax /\ hist = <<>> /\ bd = 0
+  /\ geff = g /\ m = 0 /\ j = 0 /\ kdim = 0 /\ lvl = LMax /\ hist = <<>> /\ bd = 0
   /\ pc = "start" /\ ret = <<>>
 
 (* b = 0: the answer is x = 0, no cycle is run                              *)
@@ -38,7 +38,7 @@ ZeroRhs ==
   /\ pc = "start" /\ bzero
   /\ ret' = [xzero |-> TRUE, lvl |-> 0, reported |-> 0, converged |-> TRUE, iters |-> 0]
   /\ pc' = "done"
-  /\ UNCHANGED <<params, geff, m, lvl, hist, bd>>
+  /\ UNCHANGED <<params, geff, m, j, kdim, lvl, hist, bd>>
 
 (* exact LU preconditioner: M^-1 A = I, grade 1.  A failing LU is swallowed  *)
 (* and the solver continues unpreconditioned (named deviation: silent).      *)
@@ -46,32 +46,46 @@ Precondition ==
   /\ pc = "start" /\ ~bzero
   /\ geff' = IF prec = "left_lu" /\ ~luFault THEN 1 ELSE g
   /\ m' = 1 /\ pc' = "cycle"
-  /\ UNCHANGED <<params, lvl, hist, bd, ret>>
+  /\ UNCHANGED <<params, j, kdim, lvl, hist, bd, ret>>
 
-(* one restart cycle of dimension m.  If the Krylov space becomes invariant  *)
-(* within the cycle (geff <= m) Arnoldi breaks down at step geff and the     *)
-(* iterate of THAT space solves the system.  Otherwise the residual is        *)
-(* minimised over the cycle's space: it cannot increase and is not yet 0.    *)
-Cycle ==
-  /\ pc = "cycle"
+(* one restart cycle of dimension m, step by step.  ArnoldiStep extends the   *)
+(* Krylov basis of the current residual while the space is not yet invariant;  *)
+(* LuckyBreakdown fires at step j = geff <= m (the next basis vector vanishes: *)
+(* the space is invariant) and ends the Arnoldi phase EARLY with kdim = j;      *)
+(* SolveSmall is the Givens QR + triangular solve of the (kdim+1) x kdim        *)
+(* Hessenberg system: the iterate minimises the residual over the kdim-         *)
+(* dimensional space - exactly (level 0) iff that space is invariant.           *)
+ArnoldiStep ==
+  /\ pc = "cycle" /\ j < m /\ geff > j + 1       \* at j + 1 = geff the step is a breakdown, not a regular step
+  /\ j' = j + 1
+  /\ UNCHANGED <<params, geff, m, lvl, hist, bd, kdim, pc, ret>>
+LuckyBreakdown ==
+  /\ pc = "cycle" /\ j < m /\ geff = j + 1
+  /\ j' = j + 1 /\ kdim' = j + 1 /\ bd' = j + 1 /\ pc' = "solve"
+  /\ UNCHANGED <<params, geff, m, lvl, hist, ret>>
+FullCycle ==
+  /\ pc = "cycle" /\ j = m                        \* m regular steps done, no breakdown: geff > m
+  /\ kdim' = m /\ bd' = 0 /\ pc' = "solve"
+  /\ UNCHANGED <<params, geff, m, j, lvl, hist, ret>>
+SolveSmall ==
+  /\ pc = "solve"
   /\ \E nl \in 0..lvl :
-        /\ (geff <= m => nl = 0)
-        /\ (geff > m  => nl >= 1)
+        /\ (bd # 0 => nl = 0)                      \* invariant space: exact
+        /\ (bd = 0 => nl >= 1)                     \* otherwise minimised, not yet zero, never larger
         /\ lvl' = nl /\ hist' = Append(hist, nl)
-  /\ bd' = IF geff <= m THEN geff ELSE 0
   /\ pc' = "test"
-  /\ UNCHANGED <<params, geff, m, ret>>
+  /\ UNCHANGED <<params, geff, m, j, bd, kdim, ret>>
 
 Test ==
   /\ pc = "test"
   /\ IF lvl < tolL \/ m > cap \/ m = N
      THEN /\ ret' = [xzero |-> FALSE, lvl |-> lvl, reported |-> lvl,
                      converged |-> (lvl < tolL), iters |-> m]
-          /\ pc' = "done" /\ UNCHANGED m
-     ELSE /\ m' = m + 1 /\ pc' = "cycle" /\ UNCHANGED ret
-  /\ UNCHANGED <<params, geff, lvl, hist, bd>>
+          /\ pc' = "done" /\ UNCHANGED <<m, j>>
+     ELSE /\ m' = m + 1 /\ j' = 0 /\ pc' = "cycle" /\ UNCHANGED ret
+  /\ UNCHANGED <<params, geff, kdim, lvl, hist, bd>>
 
-Next == ZeroRhs \/ Precondition \/ Cycle \/ Test
+Next == ZeroRhs \/ Precondition \/ ArnoldiStep \/ LuckyBreakdown \/ FullCycle \/ SolveSmall \/ Test
 Spec == Init /\ [][Next]_vars
 
 (* ---- clauses of the property, as invariants on the returned record ------ *)
@@ -86,5 +100,8 @@ ZeroRhsZero == Done /\ bzero => ret.xzero /\ ret.lvl = 0
 PrecIndependent == Done /\ cap = NoCap => ret.lvl < tolL
 (* the breakdown cycle is the last one                                       *)
 BreakdownEnds == bd # 0 /\ pc = "test" => lvl = 0
+(* a cycle is cut short (kdim < m) only by a breakdown, and then at the grade   *)
+ShortCycleIsBreakdown == pc \in {"solve", "test"} /\ kdim < m => bd = kdim /\ kdim = geff
+KdimBound == kdim <= m
 IterBound  == Done /\ ~bzero => ret.iters <= N /\ (cap # NoCap => ret.iters <= cap + 1)
 =============================================================================
